@@ -8,7 +8,7 @@ W=$(mktemp -d /tmp/tryseed.XXXXXX)
 if ! patch -s -p1 -d $W < "$S/patch.diff"; then echo "PATCH FAILED"; rm -rf $W; exit 3; fi
 cd /verif
 for p in $PROPS; do
-  out=$(VERIF_REPO=$W python3 sa/check.py $p 2>&1); rc=$?
+  out=$(VERIF_REPO=$W VERIF_EVIDENCE_DIR=$W/.evidence python3 sa/check.py $p 2>&1); rc=$?
   if [ $rc -ne 0 ]; then echo "--- $p rc=$rc"; echo "$out" | grep -E "violated|ANALYSIS-ERROR" | sed "s#$W/##" | cut -c1-400 | head -6; fi
 done
 rm -rf $W
